@@ -140,8 +140,8 @@ PROPS = {
               "the model table rotated by the harness's own modulus switch; noise floor 64 sigma_pred. Non-trivial = D >= 4; distinct = hash of the tuple"),
         min_evaluations=dict(quick=2000000, thorough=10000000),
         min_counters=dict(quick={"clear_every_k_complete": 64, "clear_rotations_checked": 2000000, "blind_keys": 200, "blind_ext1": 1, "blind_ext2": 1, "blind_ext4": 1, "blind_ext8": 1,
-                                 "blind_left": 1, "blind_right": 1, "blind_crafted_lwe": 1, "ok:blind_execute": 30000},
-                          thorough={"clear_every_k_complete": 64, "blind_keys": 2000, "ok:blind_execute": 300000}),
+                                 "blind_left": 1, "blind_right": 1, "blind_crafted_lwe": 1, "ok:blind_execute": 30000, "modswitch_cases": 1000, "clear_set_on_used_table": 100},
+                          thorough={"clear_every_k_complete": 64, "blind_keys": 2000, "ok:blind_execute": 300000, "modswitch_cases": 1000, "clear_set_on_used_table": 100}),
         assumptions=["LWE secret binary (block / fixed weight / probability / zero), GLWE secret ternary, rank 1, k_brk = (dnum+1)*base2k as in the repository's test",
                      "index tolerance: leading-limb vs full-precision rounding when base2k > log2(2D); round/truncate of full value or leading limbs otherwise",
                      "NTT120 backends run the same generic code with the FFT64 parameter sets (the repository does not instantiate bin-fhe on them)"],
